@@ -31,6 +31,11 @@ listed in a `private` clause -- the hypothesis "an iteration writes only its own
 def ompLoopsOk : Bool := Gen.ompLoops.all fun l => l.2.2.2.2.all fun x => x == l.2.2.1 || l.2.2.2.1.contains x
 theorem omp_loops_private : ompLoopsOk = true := by decide
 
+/-- GENERATED obligation: every access to the shared block cache of mmc.c (the array, its alias, the eviction cursor)
+lies inside a `#pragma omp critical(mmc)` block, so that cache operations are atomic steps and the C14 invariants —
+proved for every SEQUENCE of operations — hold for every interleaving of threads. -/
+theorem mmc_accesses_critical : (Gen.mmcAccesses.all fun a => a.2) = true := by decide
+
 #check @M4ri.BMat.Mp.mp4_schedule_free
 #check @M4ri.BMat.Mp.mulMp4_independent
 #check @M4ri.BMat.Mp.mp4_calls_interleaving
